@@ -41,6 +41,14 @@ CHECKS = {
               "by exhaustive numeric evaluation over the operand grid and is reported as bounded, not counted as proved."),
         technique="contract-based deductive verification: symbolic execution of the real transpiler + exact cyclotomic operator identities; z3 LIA for rotation operands; numeric exhaustive stand-in for to_matrix",
         design_ref="5.C07"),
+    "C19": dict(
+        category="proof",
+        text=("Loop-invariant proof of get_angle_spec_from_float over the reals for every angle and every tolerance in [1e-9, 1]: the real loop "
+              "bodies are executed symbolically once from a havoc'd invariant state; steps encodable (0..255), sum within tol of angle mod 2pi, "
+              "variant rest'*127 <= rest. IEEE rounding and the builder's per-step emission are covered by labelled bounded sweeps."),
+        technique="contract-based deductive verification: loop contracts (havoc/assume/body/assert) on the real loops, z3 NRA with 2**d uninterpreted + instantiated facts; bounded native float sweep",
+        design_ref="5.C19",
+        note=COMMON_NOTE + " Floats are treated as mathematical reals; np.floor/np.log2/% by defining inequalities."),
 }
 
 NA_REASON = "check not built yet in this session (see DESIGN.md section 5 for the planned contracts)"
